@@ -152,7 +152,7 @@ def tlc(module, cfg, wd, env=None, workers=16, extra=(), timeout=1800, simulate=
     """Run TLC on spec/<module>.tla with spec/<cfg>. Returns dict(ok, states, distinct, out, violated, coverage)."""
     os.makedirs(wd, exist_ok=True)
     meta = tempfile.mkdtemp(prefix="meta_", dir=wd)
-    cmd = ["java", "-Xmx" + xmx, "-XX:+UseParallelGC"]
+    cmd = ["java", "-Xmx" + xmx, "-Xss512m", "-XX:+UseParallelGC"]     # deep (non-tail) recursion of the functional modules
     if deque:
         cmd.append("-Dtlc2.tool.queue.IStateQueue=StateDeque")
     cmd += ["-cp", JAR + ":" + COMMUNITY, "tlc2.TLC", "-workers", str(workers), "-metadir", meta,
